@@ -7,7 +7,7 @@ id=$1; shift; props=${@:-${id%_*}}; m=/tmp/mut/out/$id; [ -d /tmp/mut/out2/$id ]
 cd /repo && git status --short | grep -q . && { echo "/repo not clean"; exit 2; }
 git apply $m/patch.diff || { echo "$id PATCH-DOES-NOT-APPLY"; exit 2; }
 for p in $props; do
-  out=$(cd /verif && python3-vt run.py $p --tier ${TIER:-quick} 2>&1); rc=$?
+  out=$(cd /verif && VERIF_EVIDENCE_DIR=/tmp/mut/evidence python3-vt run.py $p --tier ${TIER:-quick} 2>&1); rc=$?
   echo "$id $p rc=$rc $(echo "$out" | grep -E "VIOLATION|obligation .*:|INCONCLUSIVE" | head -4 | tr '\n' ' ' | cut -c1-400)"
 done
 git -C /repo checkout -q -- .
